@@ -63,14 +63,14 @@ COLOR_STRS = ("red", "tab:blue", "#00aa55", "k", "orange", "purple")
 
 def plan(tier):
     if tier == "quick":
-        return {"draw": 200, "layout": 400}
-    return {"draw": 32000, "layout": 64000}
+        return {"draw": 170, "layout": 400, "sequence": 50}
+    return {"draw": 24000, "layout": 64000, "sequence": 8000}
 
 
 def floors(tier):
     """Fractions of the planned case counts (expected values are 1.5x - 3x higher; the shares that matter most are fixed by idx, not drawn)."""
     p = plan(tier)
-    nd, nl = p["draw"], p["layout"]
+    nd, nl, ns = p["draw"], p["layout"], p["sequence"]
     f = {f"fn:{n}": int(0.95 * nl) for n in LAYOUTS}
     f.update({
         "fn:edge_positions_from_barycenters": int(1.2 * nl),
@@ -97,6 +97,28 @@ def floors(tier):
         "draw-has:empty-edge": int(0.06 * nd),
         "draw-has:multi-edge": int(0.1 * nd),
     })
+    f.update({
+        "barycenter:sub-network-with-full-positions": int(0.25 * nl),
+        "pos-extra-keys": int(0.25 * (nl + nd)),
+        "pos-key-order-differs-from-H.nodes": int(0.35 * (nl + nd)),
+        "seq:Hypergraph": int(0.6 * ns),
+        "seq:SimplicialComplex": int(0.3 * ns),
+        "seq:initial:pos=None": int(2.8 * ns),
+        "seq:after-edit:pos=None": 5 * ns,
+        "seq:after-edit:explicit-pos": 5 * ns,
+        "seq:node-set-changed-count-unchanged": int(0.3 * ns),
+        "seq:explicit-pos-has-removed-nodes": int(0.4 * ns),
+    })
+    for e in ("swap-node", "relabel", "remove-node"):
+        f[f"edit:{e}"] = int(0.25 * ns)
+    for e in ("rewire", "add-edge", "remove-edge"):
+        f[f"edit:{e}"] = int(0.15 * ns)
+    for e in ("add-simplex", "remove-simplex"):
+        f[f"edit:{e}"] = int(0.08 * ns)
+    for o in ORDERS:
+        f[f"pos-order:{o}"] = int(0.15 * (nl + nd))
+    for v in VALUE_KINDS:
+        f[f"pos-values:{v}"] = int(0.08 * (nl + nd))
     for s in STYLES:
         f[f"style:{s}"] = int(2.5 * nd)
     for m in ("None", "<max", ">=max"):
@@ -110,15 +132,15 @@ def floors(tier):
 # ---------------------------------------------------------------------------------
 # networks (built through the public API, one add_edge / add_simplex at a time)
 # ---------------------------------------------------------------------------------
-def _pool(rng, big=False):
-    nkind, pool = ops.node_pool(rng, k=rng.randint(7, 10) if big else rng.randint(3, 8))
+def _pool(rng, big=False, nkind=None):
+    nkind, pool = ops.node_pool(rng, kind=nkind, k=rng.randint(7, 10) if big else rng.randint(3, 8))
     rng.shuffle(pool)  # insertion order != sorted order
     return nkind, pool
 
 
-def gen_hypergraph(rng, need_big_edge, big=False):
+def gen_hypergraph(rng, need_big_edge, big=False, nkind=None):
     """Hypergraph with isolated nodes, singletons, empty edges, multi-edges; returns (H, label kind, features)."""
-    nkind, pool = _pool(rng, big)
+    nkind, pool = _pool(rng, big, nkind)
     H = xgi.Hypergraph()
     feats = set()
     if rng.random() < 0.6:
@@ -160,8 +182,8 @@ def gen_hypergraph(rng, need_big_edge, big=False):
     return H, nkind, feats
 
 
-def gen_complex(rng, need_big_edge, big=False):
-    nkind, pool = _pool(rng, big)
+def gen_complex(rng, need_big_edge, big=False, nkind=None):
+    nkind, pool = _pool(rng, big, nkind)
     S = xgi.SimplicialComplex()
     feats = set()
     if rng.random() < 0.6:
@@ -301,6 +323,48 @@ def ncls(H):
     return "n=0" if n == 0 else "n=1" if n == 1 else "n>=2"
 
 
+def check_layouts(mon, rng, H, desc, ctx="", seen=None):
+    """All network-taking layouts on H; returns one of the valid results (or None).
+
+    `ctx` marks the calls after an in-place edit of the same object; a clause the same function already failed
+    before the edit (recorded in `seen`) is the same defect and is not reported again under the ctx key.
+    """
+    nodes = list(H.nodes)
+    last = None
+    seen = set() if seen is None else seen
+
+    def fire(name, clause, what):
+        if ctx and (name, clause) in seen:
+            mon.note(f"subsumed-under-initial:{clause}")
+            return
+        seen.add((name, clause))
+        mon.fail(f"{name}|{ctx}{ncls(H)}|{clause}", what, desc)
+
+    for name in LAYOUTS:
+        kw, res = layout_call(rng, name, H)
+        mon.note(f"fn:{name}")
+        mon.ev()
+        if nodes:
+            mon.nontrivial((name, desc, sorted(kw.items())))
+        if name == "bipartite_spring_layout":
+            if not (isinstance(res, tuple) and len(res) == 2):
+                fire(name, "not-a-pair", f"{name}(H, {kw}) returned {type(res).__name__}, not (node_pos, edge_pos)")
+                continue
+            bad = bad_positions(res[0], nodes)
+            if bad:
+                fire(name, f"node-{bad[0]}", f"{name}(H, {kw}) node positions: {bad[1]}")
+            bad = bad_positions(res[1], list(H.edges))
+            if bad:
+                fire(name, f"edge-{bad[0]}", f"{name}(H, {kw}) edge positions: {bad[1]}")
+            continue
+        bad = bad_positions(res, nodes)
+        if bad:
+            fire(name, bad[0], f"{name}(H, {kw}): {bad[1]}")
+        elif rng.random() < 0.3:
+            last = res
+    return last
+
+
 def case_layout(mon, rng, idx):
     np.random.seed(rng.randrange(2**32))
     _random.seed(rng.randrange(2**32))
@@ -324,42 +388,38 @@ def case_layout(mon, rng, idx):
     mon.note(f"layout-labels:{nkind}")
     desc = describe(H)
     nodes = list(H.nodes)
-    last = None
-    for name in LAYOUTS:
-        kw, res = layout_call(rng, name, H)
-        mon.note(f"fn:{name}")
-        mon.ev()
-        if nodes:
-            mon.nontrivial((name, desc, sorted(kw.items())))
-        if name == "bipartite_spring_layout":
-            if not (isinstance(res, tuple) and len(res) == 2):
-                mon.fail(f"{name}|{ncls(H)}|not-a-pair", f"{name}(H, {kw}) returned {type(res).__name__}, not (node_pos, edge_pos)", desc)
-                continue
-            bad = bad_positions(res[0], nodes)
-            if bad:
-                mon.fail(f"{name}|{ncls(H)}|node-{bad[0]}", f"{name}(H, {kw}) node positions: {bad[1]}", desc)
-            bad = bad_positions(res[1], list(H.edges))
-            if bad:
-                mon.fail(f"{name}|{ncls(H)}|edge-{bad[0]}", f"{name}(H, {kw}) edge positions: {bad[1]}", desc)
-            continue
-        bad = bad_positions(res, nodes)
-        if bad:
-            mon.fail(f"{name}|{ncls(H)}|{bad[0]}", f"{name}(H, {kw}): {bad[1]}", desc)
-        elif rng.random() < 0.3:
-            last = res
-    # barycentres: on a layout's own output or on random positions
+    last = check_layouts(mon, rng, H, desc)
+    # barycentres: on a layout's own output (keys re-ordered) or on random positions; the dict's key order, extra keys
+    # and value types vary deterministically with idx
+    order, vkind = ORDERS[idx % 4], VALUE_KINDS[(idx // 4) % len(VALUE_KINDS)]
+    extra = pick_extra(rng, nkind, nodes) if idx % 2 else ()
     if last is None or rng.random() < 0.6:
-        node_pos, _ = rand_pos(rng, nodes)
+        node_pos, _ = rand_pos(rng, nodes, mon, extra=extra, order=order, vkind=vkind)
         src = "random-pos"
     else:
-        node_pos, src = last, "layout-pos"
+        node_pos, src = reorder(rng, last, order, mon), "layout-pos"
     check_barycenters(mon, H, node_pos, src, desc)
+    # the positions of the full network re-used for a sub-network (nodes removed from a copy / subhypergraph)
+    if len(nodes) >= 3 and idx % 2 == 0:
+        drop = rng.sample(nodes, rng.randint(1, 2))
+        if isinstance(H, xgi.SimplicialComplex) or rng.random() < 0.5:
+            sub = H.copy()
+            sub.remove_nodes_from(drop)
+            how = "copy+remove_nodes_from"
+        else:
+            sub = xgi.subhypergraph(H, nodes=[n for n in nodes if n not in drop]).copy()
+            how = "subhypergraph"
+        if snap.inv(sub) != []:
+            mon.note("discarded:invalid-input")
+        else:
+            mon.note("barycenter:sub-network-with-full-positions")
+            check_barycenters(mon, sub, node_pos, f"{src},full-network-positions", f"{describe(sub)}  # {how} of {desc} without {drop}")
     if idx % 3 == 0:
-        D, _ = gen_dihypergraph(rng)
+        D, dkind = gen_dihypergraph(rng)
         if snap.inv(D) != []:
             mon.note("discarded:invalid-input")
         else:
-            node_pos, _ = rand_pos(rng, list(D.nodes))
+            node_pos, _ = rand_pos(rng, list(D.nodes), mon, extra=pick_extra(rng, dkind, list(D.nodes)) if idx % 2 else (), order=ORDERS[(idx // 3) % 4])
             mon.note("barycenter:DiHypergraph")
             check_barycenters(mon, D, node_pos, "random-pos", describe(D))
     mon.sample(f"layout: {desc}")
@@ -399,17 +459,73 @@ def check_barycenters(mon, net, node_pos, src, desc):
 # ---------------------------------------------------------------------------------
 # drawings
 # ---------------------------------------------------------------------------------
-def rand_pos(rng, nodes):
-    """Random positions with all 2n coordinates pairwise distinct; returns (pos, container kind)."""
-    n = len(nodes)
-    vals = rng.sample(range(-60, 260), 2 * n)
-    scale = rng.choice((1.0, 0.5, 0.125, 0.01, 3.7))
-    fmt = rng.choice(("tuple", "list", "array"))
-    pos = {}
-    for i, v in enumerate(nodes):
-        x, y = vals[2 * i] * scale, vals[2 * i + 1] * scale
-        pos[v] = (x, y) if fmt == "tuple" else [x, y] if fmt == "list" else np.array([x, y])
-    return pos, fmt
+ORDERS = ("node-order", "shuffled", "sorted", "reversed")
+VALUE_KINDS = ("tuple", "list", "array-f64", "array-f32", "array-int", "list-int")
+EXTRA = {"int": (97, 98, 99), "gap": (51, -9, 77), "str": ("zz9", "new", "q7")}
+
+
+def pick_extra(rng, nkind, nodes):
+    """1-2 labels of the network's label kind that are not nodes of it."""
+    cands = [x for x in EXTRA[nkind] if x not in nodes]
+    return rng.sample(cands, rng.randint(1, min(2, len(cands)))) if cands else []
+
+
+def _ordered(rng, keys, nodes, order):
+    keys = list(keys)
+    if order == "shuffled":
+        rng.shuffle(keys)
+    elif order == "sorted":
+        try:
+            keys.sort()
+        except TypeError:
+            keys.sort(key=repr)
+    elif order == "reversed":
+        keys.reverse()
+    return keys
+
+
+def reorder(rng, pos, order, mon=None):
+    """The same position dict with its keys in another order."""
+    if mon:
+        mon.note(f"pos-order:{order}")
+    return {k: pos[k] for k in _ordered(rng, pos, None, order)}
+
+
+def _value(x, y, vkind):
+    if vkind == "tuple":
+        return (x, y)
+    if vkind in ("list", "list-int"):
+        return [x, y]
+    return np.array([x, y], dtype={"array-f64": np.float64, "array-f32": np.float32, "array-int": np.int64}[vkind])
+
+
+def rand_pos(rng, nodes, mon=None, extra=(), order=None, vkind=None, coords=None):
+    """Random positions with all coordinates pairwise distinct; returns (pos, value kind).
+
+    The dict's key order is `order` (not necessarily the order of H.nodes), it may hold `extra` keys that are no
+    nodes, and its values are tuples / lists / arrays of float64, float32 or int.  float32 and int kinds use
+    scales that are exact in that type, so a drawn point still identifies its node.
+    """
+    keys = list(nodes) + [x for x in extra if x not in nodes]
+    vkind = vkind or rng.choice(VALUE_KINDS)
+    order = order or rng.choice(ORDERS)
+    vals = rng.sample(range(-60, 400), 2 * len(keys))
+    if vkind in ("array-int", "list-int"):
+        scale = 1
+    elif vkind == "array-f32":
+        scale = rng.choice((1.0, 0.5, 0.125))
+    else:
+        scale = rng.choice((1.0, 0.5, 0.125, 0.01, 3.7))
+    xy = {k: (vals[2 * i] * scale, vals[2 * i + 1] * scale) for i, k in enumerate(keys)}
+    pos = {k: _value(*xy[k], vkind) for k in _ordered(rng, keys, nodes, order)}
+    if mon:
+        mon.note(f"pos-order:{order}")
+        mon.note(f"pos-values:{vkind}")
+        if len(keys) > len(nodes):
+            mon.note("pos-extra-keys")
+        if list(pos)[: len(nodes)] != list(nodes):
+            mon.note("pos-key-order-differs-from-H.nodes")
+    return pos, vkind
 
 
 def _k(p):
@@ -682,8 +798,9 @@ def case_draw(mon, rng, idx):
         mon.note(f"draw-has:{x}")
     desc = describe(net)
     nodes = list(net.nodes)
-    pos, pfmt = rand_pos(rng, nodes)
-    mon.note(f"pos-container:{pfmt}")
+    pos, _ = rand_pos(rng, nodes, mon, extra=pick_extra(rng, nkind, nodes) if idx % 2 else (),
+                      order=ORDERS[(idx // 3) % 4], vkind=VALUE_KINDS[(idx // 12) % len(VALUE_KINDS)])
+    mon.note("draw:explicit-pos-variant")
     edge_fn = "draw_simplices" if is_sc else "draw_hyperedges"
     fig, ax = plt.subplots()
     try:
@@ -744,6 +861,188 @@ def case_draw(mon, rng, idx):
     mon.sample(f"draw: {desc} pos={ {k: tuple(np.asarray(v, dtype=float)) for k, v in pos.items()} }")
 
 
+# ---------------------------------------------------------------------------------
+# same-object sequences: draw / lay out, edit the network in place, draw / lay out again
+# ---------------------------------------------------------------------------------
+SEQ_EDITS = {
+    "Hypergraph": ("swap-node", "relabel", "rewire", "add-edge", "remove-edge", "remove-node"),
+    "SimplicialComplex": ("swap-node", "relabel", "add-simplex", "remove-simplex", "remove-node"),
+}
+SEQ_KINDS = ("str", "gap", "int")
+FRESH = {"int": list(range(20, 60)), "gap": list(range(60, 120)), "str": [f"s{i}" for i in range(40)]}
+
+
+def _fresh(rng, nkind, net, used):
+    x = rng.choice([c for c in FRESH[nkind] if c not in used and c not in net.nodes])
+    used.add(x)
+    return x
+
+
+def apply_edit(rng, net, edit, nkind, used):
+    """One in-place edit through the public API; returns its description."""
+    is_sc = isinstance(net, xgi.SimplicialComplex)
+    nodes = list(net.nodes)
+    if edit == "swap-node":  # the node set changes, the node count does not
+        n = rng.choice(nodes)
+        net.remove_node(n)
+        new = _fresh(rng, nkind, net, used)
+        rest = list(net.nodes)
+        if rest and rng.random() < 0.6:
+            mem = [new] + rng.sample(rest, min(len(rest), rng.randint(1, 2)))
+            net.add_simplex(mem) if is_sc else net.add_edge(mem)
+            return f"remove_node({n!r}); add {'simplex' if is_sc else 'edge'} {mem!r}"
+        net.add_node(new)
+        return f"remove_node({n!r}); add_node({new!r})"
+    if edit == "relabel":
+        xgi.convert_labels_to_integers(net, in_place=True)
+        return "xgi.convert_labels_to_integers(net, in_place=True)"
+    if edit == "rewire":  # node and edge ID sets stay as they are
+        mem = net.edges.members(dtype=dict)
+        e = rng.choice(list(mem))
+        outside = [n for n in nodes if n not in mem[e]]
+        if outside and (rng.random() < 0.5 or len(mem[e]) == 0):
+            n = rng.choice(outside)
+            net.add_node_to_edge(e, n)
+            return f"add_node_to_edge({e!r}, {n!r})"
+        if mem[e]:
+            n = rng.choice(sorted(mem[e], key=repr))
+            net.remove_node_from_edge(e, n, remove_empty=False)
+            return f"remove_node_from_edge({e!r}, {n!r}, remove_empty=False)"
+        return "no-op"
+    if edit in ("add-edge", "add-simplex"):
+        mem = rng.sample(nodes, min(len(nodes), rng.randint(2, 4)))
+        if rng.random() < 0.4:
+            mem.append(_fresh(rng, nkind, net, used))
+        net.add_simplex(mem) if is_sc else net.add_edge(mem)
+        return f"add {'simplex' if is_sc else 'edge'} {mem!r}"
+    if edit in ("remove-edge", "remove-simplex"):
+        e = rng.choice(list(net.edges))
+        net.remove_simplex_id(e) if is_sc else net.remove_edge(e)
+        return f"remove {'simplex' if is_sc else 'edge'} {e!r}"
+    if edit == "remove-node":
+        n = rng.choice(nodes)
+        net.remove_node(n)
+        return f"remove_node({n!r})"
+    raise AssertionError(edit)
+
+
+def _restore_precondition(rng, net, nkind, used):
+    """Drawing is only demanded for networks with an edge of >= 2 nodes."""
+    if any(len(m) >= 2 for m in net.edges.members()):
+        return None
+    is_sc = isinstance(net, xgi.SimplicialComplex)
+    mem = list(net.nodes)[:2]
+    while len(mem) < 2:
+        mem.append(_fresh(rng, nkind, net, used))
+    net.add_simplex(mem) if is_sc else net.add_edge(mem)
+    return f"add {'simplex' if is_sc else 'edge'} {mem!r} (restores the precondition)"
+
+
+def seq_stage(mon, rng, net, nkind, known, spare, ax, stage, hist, order, seen):
+    """Everything observable on the *current* state of the one network object.  Returns False when the case must stop.
+
+    Geometry / count clauses use the same keys as the one-shot draw cases (same mechanism); only what is specific
+    to the sequence gets its own trigger: a draw call that raises after the edit although the same call returned
+    before it, and a layout whose keys are not the current node set after the edit.
+    """
+    ctx = "" if stage == "initial" else "after-in-place-edit,"
+    desc = describe(net) + "\nsame object, history:\n  " + "\n  ".join(hist)
+    is_sc = isinstance(net, xgi.SimplicialComplex)
+    edge_fn = "draw_simplices" if is_sc else "draw_hyperedges"
+    nodes = list(net.nodes)
+    for v in nodes:  # every label ever positioned keeps its position: removed nodes stay in the dict as extra keys
+        if v not in known:
+            known[v] = (spare.pop(), spare.pop())
+    vkind = rng.choice(("tuple", "list", "array-f64", "array-int"))
+    pos = {k: _value(*known[k], vkind) for k in _ordered(rng, known, nodes, order)}
+    if len(pos) > len(nodes):
+        mon.note("seq:explicit-pos-has-removed-nodes")
+    mo = pick_mo(rng, net)
+    trunc = "max_order<max" if mo_class(net, mo) == "<max" else "max_order=None-or->=max"
+    lines, polys = expected(net, mo)
+    for use_pos in (None, pos):
+        failed = set()
+        for fn in ("draw_nodes", edge_fn, "draw"):
+            ax.clear()
+            kw = {} if fn == "draw_nodes" or (mo is None and rng.random() < 0.7) else {"max_order": mo}
+            if rng.random() < 0.8:
+                kw["ax"] = ax
+            call = f"xgi.{fn}(net, {'None' if use_pos is None else 'pos'}, {', '.join(f'{k}={v!r}' for k, v in kw.items() if k != 'ax')})  # {stage}"
+            geo = Geo(mon, net, use_pos, desc, fn, trunc, failed)
+            mon.note(f"fn:{fn}")
+            mon.note(f"seq:{stage}:{'pos=None' if use_pos is None else 'explicit-pos'}")
+            mon.ev()
+            mon.nontrivial((fn, desc, repr(use_pos), call))
+            if stage == "initial":
+                res = getattr(xgi, fn)(net, use_pos, **kw)  # an exception here is the one-shot defect: crash key
+            else:
+                try:
+                    res = getattr(xgi, fn)(net, use_pos, **kw)
+                except Exception as exc:  # the same call on the same object returned before the edit
+                    mon.fail(f"{fn}|same-object,{'pos=None' if use_pos is None else 'explicit-pos'},after-in-place-edit|raises-{type(exc).__name__}",
+                             f"{call} raised {type(exc).__name__}: {exc}", geo.wit(call))
+                    return False
+            if fn == "draw_nodes":
+                colls = geo.unpack(res, 1, call)
+                if colls:
+                    geo.nodes_ok(colls[0], call)
+            elif fn == "draw":
+                colls = geo.unpack(res, 3, call)
+                if colls:
+                    geo.nodes_ok(colls[0], call)
+                    geo.lines_ok(colls[1], lines, call)
+                    geo.polys_ok(colls[2], polys, call)
+            else:
+                colls = geo.unpack(res, 2, call)
+                if colls:
+                    geo.lines_ok(colls[0], lines, call)
+                    geo.polys_ok(colls[1], polys, call)
+    check_layouts(mon, rng, net, desc, ctx, seen)
+    check_barycenters(mon, net, pos, "positions-of-all-labels-ever-seen", desc)
+    return True
+
+
+def case_sequence(mon, rng, idx):
+    np.random.seed(rng.randrange(2**32))
+    _random.seed(rng.randrange(2**32))
+    is_sc = idx % 3 == 0
+    j = idx // 3
+    nkind = SEQ_KINDS[j % 3]
+    net, nkind, _ = (gen_complex if is_sc else gen_hypergraph)(rng, need_big_edge=True, nkind=nkind)
+    if snap.inv(net) != []:
+        mon.note("discarded:invalid-input")
+        return
+    cls = type(net).__name__
+    mon.note(f"seq:{cls}")
+    used = set(net.nodes)
+    known = {}
+    spare = [v * 0.5 for v in rng.sample(range(-200, 800), 120)]  # pairwise distinct coordinates for up to 60 labels
+    hist = [f"<start> {describe(net)}"]
+    edits = SEQ_EDITS[cls]
+    fig, ax = plt.subplots()
+    try:
+        seen = set()
+        seq_stage(mon, rng, net, nkind, known, spare, ax, "initial", hist, ORDERS[j % 4], seen)
+        for r in range(2):
+            edit = edits[(j + r) % len(edits)]
+            before = (list(net.nodes), net.num_nodes)
+            hist.append(apply_edit(rng, net, edit, nkind, used))
+            fix = _restore_precondition(rng, net, nkind, used)
+            if fix:
+                hist.append(fix)
+            if snap.inv(net) != []:
+                mon.note("discarded:invalid-after-edit")
+                return
+            mon.note(f"edit:{edit}")
+            if net.num_nodes == before[1] and set(net.nodes) != set(before[0]):
+                mon.note("seq:node-set-changed-count-unchanged")
+            if not seq_stage(mon, rng, net, nkind, known, spare, ax, "after-edit", hist, ORDERS[(j + r + 1) % 4], seen):
+                return
+    finally:
+        plt.close("all")
+    mon.sample("sequence: " + " ; ".join(hist))
+
+
 def _short(v):
     if hasattr(v, "asdict") and not isinstance(v, dict):
         return f"<stat {getattr(v, 'name', type(v).__name__)}>"
@@ -754,5 +1053,7 @@ def _short(v):
 def run_case(mon, kind, idx, rng):
     if kind == "layout":
         case_layout(mon, rng, idx)
+    elif kind == "sequence":
+        case_sequence(mon, rng, idx)
     else:
         case_draw(mon, rng, idx)
